@@ -243,7 +243,9 @@ func (m *CPU) Run(app risc.Application) (int, error) {
 				continue
 			}
 			empty = false
-			eu.Cycle(euReq{cycle, app})
+			if resp := eu.Cycle(euReq{cycle, app}); resp.err != nil {
+				return 0, resp.err
+			}
 		}
 		// Results of the instructions completed here still have to be written back
 		m.writeBus.Connect(cycle)
